@@ -312,7 +312,7 @@ PrologFails(lang, d, t, lower) == IF lang = "en" THEN PlEn(d, t, lower) ELSE PlJ
    Japanese formats cannot distinguish a bracket from its escape, so words are compared up to that escape *)
 ReadWord(f, w) == CASE f = "auto" -> Denorm(w) [] f \in {"ptb", "ja"} -> Norm(w) [] OTHER -> w
 ReadWordOf(f, rw) == IF f \in {"ptb", "ja"} THEN Norm(rw) ELSE rw
-HasHeadField(f) == f \in {"auto"}
+HasHeadField(f) == f \in {"auto"}      \* xml, jigg_xml, ptb and nltk trees have no head field: the head comes from the rule
 Deriving(d) == SelectSeq(d.gr, LAMBDA g : g.c = d.cat)
 (* what the properties demand of one node, by property *)
 RECURSIVE ReadFails(_, _, _)
